@@ -3,6 +3,7 @@ nightly), Display/Debug of std values, write!/format!/to_string."""
 import z3
 from . import model, pattern
 from .util import *
+from .util import RANGES
 from .. import mir as MIR
 from ..interp import strip_lifetimes
 
@@ -175,6 +176,10 @@ def int_digits(P, v, w, signed):
     """decimal digits of a scalar; forks on the number of digits when symbolic"""
     if v.concrete:
         return list(str(v.sval() if signed else v.v).encode())
+    memo = P.state.setdefault('int_digits', {})
+    hit = memo.get((v.v.get_id(), w, signed))
+    if hit is not None:
+        return list(hit)
     z = v.z()
     out_sign = []
     if signed:
@@ -186,9 +191,13 @@ def int_digits(P, v, w, signed):
     zz = z3.ZeroExt(4, z)
     maxd = len(str((1 << w) - 1))
     conds = []
+    known = RANGES.get(v.v.get_id()) if not signed else None
     for k in range(1, maxd + 1):
         lo = 0 if k == 1 else 10 ** (k - 1)
         hi = 10 ** k
+        if known is not None and not any(a < hi and b >= lo for a, b in known):
+            conds.append(False)
+            continue
         c = z3.UGE(zz, z3.BitVecVal(lo, W))
         if hi < (1 << W):
             c = z3.And(c, z3.ULT(zz, z3.BitVecVal(hi, W)))
@@ -202,6 +211,10 @@ def int_digits(P, v, w, signed):
         ds.append(d)
         total = total * 10 + z3.ZeroExt(W - 8, d - 48)
     P.assume(total == zz)
+    memo[(v.v.get_id(), w, signed)] = out_sign + ds
+    if not out_sign:
+        # the digits are by construction the decimal representation of v: parsing them back yields v
+        P.state.setdefault('digits_of', {})[tuple(d.get_id() for d in ds)] = Sc(v.v, w, signed)
     return out_sign + ds
 
 
